@@ -19,3 +19,35 @@ package blockchain
 //@   loop rangeindex: invariant sofar: forall j int :: 0 <= j && j <= rangeindex ==> (len(e.keysMap[j]) == 0 || in(e.keysMap[j], eventKeys[j]))
 //@   loop rangeindex: decreases len(eventKeys) - rangeindex
 //@   ensures exact: result <==> (len(eventKeys) >= len(e.keysMap) && (forall j int :: 0 <= j && j < len(e.keysMap) ==> (len(e.keysMap[j]) == 0 || in(e.keysMap[j], eventKeys[j]))))
+
+// ---- bloom pre-filter: a block is ruled out only on the evidence of a failed bloom test -----------
+//@ ghost var lastTest bool
+//@ ghost var lastContains bool
+//@ extern func slices.ContainsFunc
+//@   logged
+//@   assigns lastContains
+//@   ensures lastContains == result
+//@ extern func github.com/NethermindEth/juno/core/felt.(*Felt).Bytes
+//@ extern func encoding/binary.AppendVarint
+//@ extern func github.com/bits-and-blooms/bloom/v3.(*BloomFilter).Test
+//@   logged
+//@   assigns lastTest
+//@   ensures lastTest == result
+
+// A false answer ("this block cannot contain a matching event") is always backed by a failed
+// test: either none of the filter's addresses is in the bloom filter, or the last key tested at
+// some non-empty position is not. A wildcard position (empty key set) never rules a block out.
+//@ func (*EventMatcher).TestBloom
+//@   props C09
+//@   arith int
+//@   requires e != nil
+//@   assigns lastTest, lastContains, calls_Test, calls_ContainsFunc, arg_Test_data, arg_ContainsFunc_f
+//@   loop 1: invariant alive: possibleMatches
+//@   loop 1: invariant bounds: -1 <= rangeindex && rangeindex < len(e.keysMap)
+//@   loop 1: invariant mono: calls_Test >= old(calls_Test)
+//@   loop 1: invariant nowild: (forall i int :: 0 <= i && i <= rangeindex ==> len(e.keysMap[i]) == 0) ==> calls_Test == old(calls_Test)
+//@   loop 2: invariant nowild: (forall i int :: 0 <= i && i <= rangeindex + 1 ==> len(e.keysMap[i]) == 0) ==> calls_Test == old(calls_Test)
+//@   loop 2: invariant backed: possibleMatches || (calls_Test > old(calls_Test) && !lastTest)
+//@   loop 2: invariant mono: calls_Test >= old(calls_Test)
+//@   ensures backed: !result ==> (len(e.contractAddressBytes) > 0 && calls_ContainsFunc == old(calls_ContainsFunc) + 1 && !lastContains && calls_Test == old(calls_Test)) || (calls_Test > old(calls_Test) && !lastTest)
+//@   ensures all_wildcards_match: (len(e.contractAddressBytes) == 0 && (forall i int :: 0 <= i && i < len(e.keysMap) ==> len(e.keysMap[i]) == 0)) ==> result
